@@ -1219,6 +1219,9 @@ class Interp:
         ienv.vars[idx_name] = 0
         for gname, gcl in inv.get("snapshot", {}).items():
             self.ghost[gname] = self.eval_spec(gcl, ienv)  # value at loop entry, not havoced
+        for cl in inv.get("assume", []):
+            # definitional axioms of ghost fold functions (fresh uninterpreted functions defined by recursion: conservative)
+            self.path.assume(truthy(self.eval_spec(cl, ienv)))
         for k, cl in enumerate(inv["clauses"]):
             self.path.oblige(f"{name}:inv-init#{k}", "loop-inv-init", truthy(self.eval_spec(cl, ienv)), detail=cl)
         # havoc
